@@ -51,6 +51,7 @@ type bscCfg struct {
 	maxPending       int
 	maxRecents       int
 	extraLens        []int
+	maxHead          uint64 // 0: head block numbers 1..8
 }
 
 func newBscWorld(cfg bscCfg) *bscWorld {
@@ -70,7 +71,11 @@ func newBscWorld(cfg bscCfg) *bscWorld {
 		vbytes = append(vbytes, a.Bytes())
 	}
 	head := freshBscHeader("head", 97)
-	rt.Assume(head.Height.RevisionHeight >= 1 && head.Height.RevisionHeight <= 8) // bound on block numbers (one decimal digit in signer keys)
+	maxHead := uint64(8)
+	if cfg.maxHead != 0 {
+		maxHead = cfg.maxHead
+	}
+	rt.Assume(head.Height.RevisionHeight >= 1 && head.Height.RevisionHeight <= maxHead) // bound on block numbers (one decimal digit in signer keys)
 	epoch := cfg.epochs[rt.IntRange("epochChoice", 0, len(cfg.epochs)-1)]
 	w.cs = ClientState{Header: head, ChainId: rt.U64("chainID"), Epoch: epoch, BlockInteval: 3, Validators: vbytes, TrustingPeriod: rt.U64("trustingPeriod")}
 	cdc := rt.Codec()
@@ -119,6 +124,12 @@ func sortedVals(vs []common.Address) []common.Address {
 // VerifC09Seal: validator sets of 2..3 (thorough 4) with up to 2 (thorough 3) recent signers, ordinary (non-epoch) blocks.
 func VerifC09Seal() {
 	c09Header(bscCfg{name: "seal", minVals: 2, maxVals: 3 + rt.Tier(), epochs: []uint64{200}, maxPending: 1, maxRecents: 1 + 2*rt.Tier(), extraLens: []int{97}})
+}
+
+// VerifC09SealYoungChain: four validators (window of 3) at head 1..2 with one recent signer: the first blocks of a chain, where
+// the window reaches below block 0 (the recorded finding H9 lives here and nowhere else).
+func VerifC09SealYoungChain() {
+	c09Header(bscCfg{name: "young", minVals: 4, maxVals: 4, epochs: []uint64{200}, maxPending: 1, maxRecents: 1, extraLens: []int{97}, maxHead: 2})
 }
 
 // VerifC09Structure: extra-data shapes against epoch / non-epoch blocks.
